@@ -1,14 +1,211 @@
 package main
 
 import (
+	"encoding/json"
+	"flag"
 	"fmt"
-	"golang.org/x/tools/go/packages"
+	"os"
+	"regexp"
+	"strings"
+	"time"
 )
 
 func main() {
-	cfg := &packages.Config{Mode: packages.LoadAllSyntax, Dir: "/repo", BuildFlags: []string{"-tags=verif"},
-		Env: append([]string{"GOWORK=off", "GOFLAGS=-mod=mod", "GOPROXY=off", "GOTOOLCHAIN=go1.25.5"}, envBase()...)}
-	pkgs, err := packages.Load(cfg, "./internal/kessoku", "./internal/llmsetup", "./internal/migrate", "./internal/pkg/collection", ".")
-	fmt.Println(len(pkgs), err)
-	for _, p := range pkgs { fmt.Println(p.PkgPath, len(p.Syntax), p.Errors) }
+	if len(os.Args) < 2 {
+		fmt.Fprintln(os.Stderr, "usage: kvc verify [-t sec] [-filter re] <FuncKey>... | kvc check <PROP> <tier> | kvc list")
+		os.Exit(2)
+	}
+	switch os.Args[1] {
+	case "verify":
+		cmdVerify(os.Args[2:])
+	case "list":
+		cmdList()
+	case "check":
+		os.Exit(cmdCheck(os.Args[2:]))
+	case "replay":
+		os.Exit(cmdReplay(os.Args[2]))
+	case "lock":
+		cmdLock(os.Args[2:])
+	default:
+		fmt.Fprintln(os.Stderr, "unknown command")
+		os.Exit(2)
+	}
+}
+
+func cmdList() {
+	prog, err := loadProgram()
+	if err != nil {
+		fmt.Fprintln(os.Stderr, err)
+		os.Exit(2)
+	}
+	for _, p := range prog.Problems {
+		fmt.Println("PROBLEM:", p)
+	}
+	for _, fi := range sortedFuncInfos(prog) {
+		vc, err := buildVC(prog, fi)
+		if err != nil {
+			fmt.Printf("%-50s ERROR %v\n", fi.Key, err)
+			continue
+		}
+		fmt.Printf("%-50s %d obligations\n", fi.Key, len(vc.obls))
+	}
+}
+
+func cmdVerify(args []string) {
+	fs := flag.NewFlagSet("verify", flag.ExitOnError)
+	timeout := fs.Int("t", 10, "per-obligation timeout (s)")
+	filt := fs.String("filter", "", "regexp on obligation names")
+	work := fs.String("work", "/verif/work/dbg", "work dir")
+	verbose := fs.Bool("v", false, "print discharged obligations too")
+	agree := fs.Int("agree", 1, "back ends that must agree on unsat")
+	_ = fs.Parse(args)
+	if env := os.Getenv("KVC_REPO"); env != "" {
+		repoDir = env
+	}
+	t0 := time.Now()
+	prog, err := loadProgram()
+	if err != nil {
+		fmt.Fprintln(os.Stderr, err)
+		os.Exit(2)
+	}
+	fmt.Printf("loaded in %.1fs\n", time.Since(t0).Seconds())
+	for _, p := range prog.Problems {
+		fmt.Println("PROBLEM:", p)
+	}
+	var re *regexp.Regexp
+	if *filt != "" {
+		re = regexp.MustCompile(*filt)
+	}
+	var fis []*FuncInfo
+	if fs.NArg() == 0 {
+		fis = sortedFuncInfos(prog)
+	}
+	for _, k := range fs.Args() {
+		found := false
+		for _, fi := range sortedFuncInfos(prog) {
+			if fi.Key == k || strings.HasSuffix(fi.Key, k) {
+				fis = append(fis, fi)
+				found = true
+			}
+		}
+		if !found {
+			fmt.Println("no function under contract matches", k)
+		}
+	}
+	bad := 0
+	for _, fi := range fis {
+		vc, err := buildVC(prog, fi)
+		if err != nil {
+			fmt.Printf("== %s: CANNOT TRANSLATE: %v\n", fi.Key, err)
+			bad++
+			continue
+		}
+		cfg := runCfg{workDir: *work, timeoutS: *timeout, seed: 0, needAgree: *agree, par: 6}
+		if re != nil {
+			cfg.filter = func(n string) bool { return re.MatchString(n) }
+		}
+		rs := discharge(vc, cfg)
+		ok := 0
+		for _, r := range rs {
+			if r.Status == "discharged" || r.Status == "cover-ok" {
+				ok++
+				if *verbose {
+					fmt.Printf("   ok   %-70s %s %.2fs\n", r.Name, r.Backend, r.TimeS)
+				}
+				continue
+			}
+			bad++
+			fmt.Printf("   %-9s %s [%s] %s\n      %s\n      %s\n", strings.ToUpper(r.Status), r.Name, r.Result, r.Pos, r.Text, r.SMT2)
+			for k, v := range r.Model {
+				fmt.Printf("      %s = %s\n", k, v)
+			}
+		}
+		fmt.Printf("== %s: %d/%d obligations ok\n", fi.Key, ok, len(rs))
+	}
+	fmt.Printf("total %.1fs, %d not ok\n", time.Since(t0).Seconds(), bad)
+}
+
+// cmdLock records the normalised names of the obligations currently generated
+// and discharged for each claimed property (run on the unchanged tree only).
+func cmdLock(args []string) {
+	var pmap map[string]*PropSpec
+	if err := readJSON(verifDir+"/properties.map.json", &pmap); err != nil {
+		fmt.Fprintln(os.Stderr, err)
+		os.Exit(2)
+	}
+	prog, err := loadProgram()
+	if err != nil {
+		fmt.Fprintln(os.Stderr, err)
+		os.Exit(2)
+	}
+	lock := map[string][]string{}
+	_ = readJSON(verifDir+"/obligations.lock.json", &lock)
+	byKey := map[string]*FuncInfo{}
+	for _, fi := range prog.Funcs {
+		if fi.Kind == KContract {
+			byKey[fi.Key] = fi
+		}
+	}
+	for prop, ps := range pmap {
+		if len(args) > 0 && !contains(args, prop) {
+			continue
+		}
+		set := map[string]bool{}
+		var incl, excl []*regexp.Regexp
+		for _, r := range ps.Obligations {
+			incl = append(incl, regexp.MustCompile(r))
+		}
+		for _, r := range ps.Exclude {
+			excl = append(excl, regexp.MustCompile(r))
+		}
+		for _, key := range ps.Functions {
+			fi := byKey[key]
+			if fi == nil || fi.Spec == nil || fi.Spec.Trusted {
+				continue
+			}
+			vc, err := buildVC(prog, fi)
+			if err != nil {
+				fmt.Println("skip", key, err)
+				continue
+			}
+		NEXT:
+			for _, o := range vc.obls {
+				if o.Kind == "cover" {
+					continue
+				}
+				for _, r := range excl {
+					if r.MatchString(o.Name) {
+						continue NEXT
+					}
+				}
+				ok := len(incl) == 0
+				for _, r := range incl {
+					if r.MatchString(o.Name) {
+						ok = true
+					}
+				}
+				if ok {
+					set[normName(o.Name)] = true
+				}
+			}
+		}
+		var names []string
+		for n := range set {
+			names = append(names, n)
+		}
+		sortStrings(names)
+		lock[prop] = names
+		fmt.Printf("%s: %d obligation names locked\n", prop, len(names))
+	}
+	b, _ := json.MarshalIndent(lock, "", " ")
+	_ = os.WriteFile(verifDir+"/obligations.lock.json", b, 0o644)
+}
+
+func contains(xs []string, x string) bool {
+	for _, y := range xs {
+		if y == x {
+			return true
+		}
+	}
+	return false
 }
